@@ -78,10 +78,10 @@ package sm4
 // ---- key length (C02): exactly 16 bytes, any other length is an error and no cipher
 //@ func newCipher trusted
 //@   requires len(key) == 16
-//@   ensures err == nil && result0 != nil
+//@   ensures err == nil && result0 != nil && BS(id(result0)) == 16
 //@   modifies nothing
 //@ func NewCipher property C02
 //@   ensures len(key) != 16 <==> err != nil
-//@   ensures err == nil ==> result0 != nil
+//@   ensures err == nil ==> result0 != nil && BS(id(result0)) == 16
 //@   ensures err != nil ==> result0 == nil
 //@   modifies nothing
